@@ -16,7 +16,8 @@ pub struct Geo {
     pub files: Vec<usize>,
     pub single: bool,
     /// 0: f0, sub/f1, v1..2/f2.., ..f3; 1: siblings that share a stem and look like scratch names
-    /// (a.part, a.txt, a, a.tmp).
+    /// (a.part, a.txt, a, a.tmp); 2: directories named like the start of the previous entry's
+    /// directory (photos-raw/, photos/, photos/v10/, photos/v1/).
     pub style: u8,
 }
 
@@ -32,6 +33,7 @@ pub fn geometries(ps: &[usize], max_files: usize) -> Vec<Geo> {
                     out.push(Geo { p, files: cur.clone(), single: true, style: 0 });
                 } else {
                     out.push(Geo { p, files: cur.clone(), single: false, style: 1 });
+                    out.push(Geo { p, files: cur.clone(), single: false, style: 2 });
                 }
             }
             if cur.len() == max_files {
@@ -64,7 +66,10 @@ pub fn check_geo(rt: &tokio::runtime::Runtime, dir: &Path, g: &Geo) -> Option<(&
     core::wipe_dir(dir);
     // names: plain, in a subdirectory, and (third and fourth file) with runs of dots inside a
     // component, which are ordinary names
-    let names: Vec<String> = if g.style == 1 {
+    let names: Vec<String> = if g.style == 2 {
+        // directories whose names are text prefixes of their predecessor's without being ancestors
+        (0..g.files.len()).map(|i| match i % 4 { 0 => "photos-raw/f0".to_string(), 1 => "photos/f1".to_string(), 2 => "photos/v10/f2".to_string(), _ => "photos/v1/f3".to_string() }).collect()
+    } else if g.style == 1 {
         (0..g.files.len()).map(|i| match i % 4 { 0 => "a.part".to_string(), 1 => "a.txt".to_string(), 2 => "a".to_string(), _ => "a.tmp".to_string() }).collect()
     } else {
         (0..g.files.len()).map(|i| match i % 4 { 0 => format!("f{}", i), 1 => format!("sub/f{}", i), 2 => format!("v1..2/f{}..", i), _ => format!("..f{}", i) }).collect()
@@ -247,7 +252,7 @@ pub fn run(ctx: &Ctx) -> Outcome {
     o.set("name_clash_cases", json!(clashes));
     o.set("evaluations", json!(geos.len() as u64 + clashes));
     o.set("distinct_nontrivial", json!(multi_in_piece));
-    o.set("rule", json!(format!("every piece length p in {:?} x every list of 1..={} file lengths each in 0..=2p+1 with total <= 3p+2 (single-file form and files-list form for one file); plus realistic piece sizes (16384; thorough also 8192, 8193, 20000, 65536): total 2p+5, files = segments between every choice of <= 2 (thorough 3) cut points from the offsets {{1, 1000, 8191, 8192, 8193, 12000, p-1, p, p+1, p+1000, p+8192, p+8193, 2p, 2p+4}}; file names in two styles (f0, sub/f1, v1..2/f2.., ..f3; and siblings sharing a stem that look like scratch names: a.part, a.txt, a, a.tmp); each geometry extracted twice: into an empty directory and over pre-existing longer output files; plus single-file torrents whose file is named like the stored file of one of their own pieces (every piece k of four small geometries); all geometries distinct; non-trivial = at least one file starts strictly inside a piece", ps, ctx.tier.pick(3, 4))));
+    o.set("rule", json!(format!("every piece length p in {:?} x every list of 1..={} file lengths each in 0..=2p+1 with total <= 3p+2 (single-file form and files-list form for one file); plus realistic piece sizes (16384; thorough also 8192, 8193, 20000, 65536): total 2p+5, files = segments between every choice of <= 2 (thorough 3) cut points from the offsets {{1, 1000, 8191, 8192, 8193, 12000, p-1, p, p+1, p+1000, p+8192, p+8193, 2p, 2p+4}}; file names in three styles (f0, sub/f1, v1..2/f2.., ..f3; siblings sharing a stem that look like scratch names: a.part, a.txt, a, a.tmp; directories named like the start of the previous entry's directory: photos-raw/, photos/, photos/v10/, photos/v1/); each geometry extracted twice: into an empty directory and over pre-existing longer output files; plus single-file torrents whose file is named like the stored file of one of their own pieces (every piece k of four small geometries); all geometries distinct; non-trivial = at least one file starts strictly inside a piece", ps, ctx.tier.pick(3, 4))));
     let picks = ctx.seeded_pick(geos.len(), 5);
     o.set("samples", Value::Array(picks.iter().map(|i| json!({"p": geos[*i].p, "files": geos[*i].files, "single": geos[*i].single, "style": geos[*i].style})).collect()));
     o.set("exhaustive", json!(true));
